@@ -132,11 +132,17 @@ func runC15e2e(c *fw.Case) {
 	}
 	var history []any
 	nreq := 3 + c.R.Intn(3)
+	forceFull := false
 	for i := 0; i < nreq; i++ {
 		spec := s.genRequest(out)
-		if i == 0 {
+		if i == 0 || forceFull {
 			spec.Prod = true
 			spec.Final = s.cl.Head
+		}
+		if forceFull { // recompute the whole range after a targeted deletion
+			spec.Start = int64(s.pkg.Init[out])
+			spec.Stop = s.H
+			forceFull = false
 		}
 		if pl, err := s.cl.PlanFor(spec); err == nil && pl.KnownHangShape() {
 			continue
@@ -177,7 +183,19 @@ func runC15e2e(c *fw.Case) {
 			}
 		}
 		// index files: delete all / a subset / none
-		switch c.R.Intn(4) {
+		choice := c.R.Intn(4)
+		{
+			seenIdx := map[string]bool{}
+			for _, f := range s.cl.ListCache() {
+				if f.Sub == "index" {
+					seenIdx[f.Hash] = true
+				}
+			}
+			if len(seenIdx) >= 2 && c.R.Intn(2) == 0 {
+				choice = 3
+			}
+		}
+		switch choice {
 		case 3: // only ONE index module loses its files: the others' pre-computed bitmaps stay in use
 			var hashes []string
 			seen := map[string]bool{}
@@ -202,6 +220,7 @@ func runC15e2e(c *fw.Case) {
 					}
 				}
 				step["deleted_index_files_of_one_module"] = n
+				forceFull = true
 				if len(hashes) > 1 {
 					c.Count("e2e_one_of_several_index_modules_lost_its_files", 1)
 				}
